@@ -14,6 +14,7 @@ from pathlib import Path
 from harness import core, staging_common as sc
 
 LEVEL = "model_checking"
+MAX_RECORDED = 12  # replay files written per run (the rest is only counted)
 POOL = ["F1", "F2", "G3", "N1", "S1", "S2"]
 
 
@@ -186,6 +187,9 @@ def run(ctx):
             ctx.observe("case not evaluated: " + str(d), {"fields": case["fields"]})
             continue
         if v != "ok":
+            if len(ctx.violations) >= MAX_RECORDED:
+                ctx.extra["violations_not_recorded"] = ctx.extra.get("violations_not_recorded", 0) + 1
+                continue
             # the code under test is deterministic: a genuine defect reproduces (the machine is shared)
             v2, d2, obs2, _ = check((case, info, k))
             if v2 == "ok":
